@@ -153,11 +153,13 @@ impl<F: FftField> DensePolynomial<F> {
     /// Multiply `self` by the vanishing polynomial for the domain `domain`.
     /// Returns the result of the multiplication.
     pub fn mul_by_vanishing_poly<D: EvaluationDomain<F>>(&self, domain: D) -> Self {
+        // The vanishing polynomial of a coset `hH` is `X^n - h^n`.
+        let offset_pow_size = domain.coset_offset_pow_size();
         let mut shifted = vec![F::zero(); domain.size()];
         shifted.extend_from_slice(&self.coeffs);
         cfg_iter_mut!(shifted)
             .zip(&self.coeffs)
-            .for_each(|(s, c)| *s -= c);
+            .for_each(|(s, c)| *s -= *c * offset_pow_size);
         Self::from_coefficients_vec(shifted)
     }
 
@@ -178,29 +180,34 @@ impl<F: FftField> DensePolynomial<F> {
             //    during the division by `x^domain_size - 1`, some of `self.coeffs[domain_size..]` will be updated as well
             //    which can be computed using the following algorithm.
             //
+            // The vanishing polynomial of a coset `hH` is `X^n - h^n`; below `c = h^n`
+            // (`c = 1` for a subgroup).
+            let offset_pow_size = domain.coset_offset_pow_size();
             let mut quotient_vec = self.coeffs[domain_size..].to_vec();
+            let mut offset_pow = F::one();
             for i in 1..(self.len() / domain_size) {
+                offset_pow *= offset_pow_size;
                 cfg_iter_mut!(quotient_vec)
                     .zip(&self.coeffs[domain_size * (i + 1)..])
-                    .for_each(|(s, c)| *s += c);
+                    .for_each(|(s, c)| *s += *c * offset_pow);
             }
 
             // Compute the remainder
             //
-            // `remainder = self - quotient_vec * (x^domain_size - 1)`
+            // `remainder = self - quotient_vec * (x^domain_size - c)`
             //
             // Note that remainder must be smaller than `domain_size`.
             // So we can look at only the first `domain_size` terms.
             //
             // Therefore,
-            // `remainder = self.coeffs[0..domain_size] - quotient_vec * (-1)`
+            // `remainder = self.coeffs[0..domain_size] - quotient_vec * (-c)`
             // i.e.,
-            // `remainder = self.coeffs[0..domain_size] + quotient_vec`
+            // `remainder = self.coeffs[0..domain_size] + c * quotient_vec`
             //
             let mut remainder_vec = self.coeffs[0..domain_size].to_vec();
             cfg_iter_mut!(remainder_vec)
                 .zip(&quotient_vec)
-                .for_each(|(s, c)| *s += c);
+                .for_each(|(s, c)| *s += *c * offset_pow_size);
 
             let quotient = Self::from_coefficients_vec(quotient_vec);
             let remainder = Self::from_coefficients_vec(remainder_vec);
